@@ -81,13 +81,42 @@ CFG = dict(
          "vmedian: the trace is checked directly (reads in bounds, slices inside 0..=len, every slot written exactly once before "
          "exposure, clean panic otherwise). nt=0 marks empty input.",
     theorem_hint="Props/C10.v",
-    level_text="Proof for the drivers: running the driver model on the list of positions makes every fetched argument the index "
+    level_text="Proof, drivers: running the driver model on the list of positions makes every fetched argument the index "
                "it was fetched from; theorems (all series lengths, all windows incl. 0 and > len): every unchecked read of every "
                "two-phase body is < len, every slice is start <= end <= len, the output slots written are exactly 0..len-1 once "
                "each, window 0 on a non-empty series and a shorter second series panic before anything is exposed, and a callback "
-               "that reads only inside [start, end] stays in bounds. Partial: the rescanning callbacks of cmp/norm/reg and the "
-               "vrank/partition/quantile kernels are not yet inside the trace model; they are monitored directly on instrumented "
-               "containers (exploration-strength for that part).",
+               "that reads only inside [start, end] stays in bounds. "
+               "Proof, kernels (now inside the trace model, at EVERY carrier - no law of the numeric class or of its order is used): "
+               "the rescanning callbacks of cmp.rs (ts_vmin/vmax/vargmin/vargmax/vrank), norm.rs (ts_vminmaxnorm) and reg.rs "
+               "(ts_vregx_resid_mean/std/skew) are written a second time in a traced result monad that logs every uget; erasure "
+               "theorems show the traced text computes exactly the model callback, read theorems show every logged access is an "
+               "unchecked read at an index of start.unwrap_or(0)..=end for every state and series; hence the access trace of a "
+               "whole call (driver reads, callback reads, slot writes, threaded through the callback state) is in bounds for every "
+               "series, window, min_periods, both bodies and both series lengths, unconditionally, and its writes are 0..len-1 once "
+               "each whenever the window is accepted. The model's uget is a checked read (out of range = panic), n -= 1 is a checked "
+               "subtraction, start.unwrap() a checked unwrap: idx_run = Done out with length out = len (or the documented "
+               "AssertFail for window 0 on non-empty input) is proved for every series / window / min_periods / body through the "
+               "carrier-generic counting invariant (counter = number of non-null elements seen and not yet removed; uses not_none "
+               "only); for the arg-extrema the offset min_idx - start additionally needs that every non-null element equals itself "
+               "(all integers, all non-NaN floats, all reals; false only for Some(NaN), DESIGN 5.4) - proved outright at the integer "
+               "carrier. The residual statistics: the checked text (uget, usub) equals the pure model for every window, pair of "
+               "lengths and body. vrank: the checked traced text (series and internal idx_sorted through checked reads, i - j and "
+               "len - repeat_num through checked subtraction, out.uset logged) performs only in-bounds accesses, never panics and "
+               "returns the model value, for every series incl. empty / one element / all null. varg_partition / vpartition: the "
+               "to_trust(kth+1) length claim holds for all parameters, every index returned is -1 or < len, select_nth(kth) has "
+               "kth < len, the only panic is T::none() of an integer type when padding is needed. vquantile: q outside [0,1] (NaN "
+               "included) is Err; under the carrier's index law ceil((n-1)q) <= n-1 (proved at option R) the selected index is "
+               "< n <= len and vquantile / vmedian never panic. "
+               "Every output slot of vrank is written exactly once: on the uninitialised-buffer path the slots written are a "
+               "permutation of 0..len-1 (positional invariant), the O::empty / O::full paths perform no uset. "
+               "Partial: the index "
+               "law and x == x at binary64 are not proved in Coq (no theory of primitive floats) and are exercised by the "
+               "correspondence; std's sort_unstable_by / select_nth_unstable_by enter only as 'a permutation of the input' "
+               "(insertion-sort model) and their comparator calls are not traced; the internal Vec<usize> of vrank is a std "
+               "container: its model is a list and the harness cannot instrument it (exploration-strength on the Rust side: the "
+               "instrumented TraceView / TraceOut monitor every kernel run directly); the model-side KERNEL traces are tied to the code "
+               "through the value correspondence of the erased models (C03/C04/C05/C06/C12 runs) and are not yet compared cell by "
+               "cell with the instrumented implementation traces (only the driver traces are).",
     level_note="Trusted: Coq kernel; model of view.rs driver bodies; the instrumented containers implement tevec's public traits "
                "in the harness (Vec's own fast-path reads cannot be observed, only its writes); std Vec internals of vrank "
                "(idx_sorted) are not instrumented; memory effects themselves (an actual out-of-bounds write) are outside Coq.",
